@@ -149,7 +149,34 @@ def sc_int_init(B, dtype, dask):
     return o
 
 
+def sc_descent_observable(B, dask, seed):
+    """real code only: distortion after k and k+1 iterations of the real fit, reported criterion"""
+    import numpy as np
+
+    km = B.mod("kmeans")
+    rs = np.random.RandomState(seed)
+    X = np.vstack([rs.normal((0, 0), 1.0, (30, 2)), rs.normal((4, 1), 1.5, (30, 2)), rs.normal((1, 5), 0.7, (20, 2))])
+    init = np.array([[0.5, 0.5], [1.0, 0.0], [0.0, 1.0]])
+
+    def J(c):
+        return float((((X[None] - c[:, None]) ** 2).sum(-1)).min(0).mean())
+
+    o = Outcome()
+    prev_c = init
+    js = [J(init)]
+    for k in range(1, 6):
+        m = km.KMeansMachine(3, init_method=init.copy(), max_iter=k, convergence_threshold=None)
+        m.fit(X if not dask else B.darr(X, ((25, 40, 15), (2,))))
+        o.equal("criterion-is-distortion-of-entering-centroids-%d" % k, m.average_min_distance, J(prev_c))
+        prev_c = np.array(m.centroids_)
+        js.append(J(prev_c))
+    for k in range(5):
+        o.claim("distortion-not-increasing-%d" % k, js[k + 1] <= js[k] + 1e-10)
+    return o
+
+
 def job_int_init(P):
+    P.probe_real("descent-observable", sc_descent_observable, [dict(dask=dk, seed=sd) for dk in (False, True) for sd in (1, 2, 3)], tries=1)
     P.probe_real("integer-init", sc_int_init, [dict(dtype=d, dask=k) for d in ("int64", "int32", "float32") for k in (False, True)], tries=1)
 
 
